@@ -58,6 +58,23 @@ def small_trees():
                 yield [('acts', ('all',), ['label:y', 'pass']), ('block', c, list(inner)), tail]
 
 
+def nested_pass_break_trees():
+    """pass and break INSIDE nested blocks (one and two levels deep), followed or not by further rules of the enclosing blocks"""
+    conds = [('all',), ('atom', 0), ('atom', 1)]
+    actl = [['label:x', 'pass'], ['label:y', 'break'], ['move:A'], ['addhdr', 'move:B'], ['pass'], ['break']]
+    leaf = [('acts', c, a) for c in conds for a in actl]
+    tails = [None, ('acts', ('all',), ['move:B']), ('acts', ('atom', 2), ['flags:T', 'pass'])]
+    for r1, r2 in itertools.product(leaf, repeat=2):
+        if not any(a in ('pass', 'break') for a in r1[2] + r2[2]):
+            continue
+        for oc in (('all',), ('atom', 2)):
+            for tail in tails:
+                inner = [r1, r2]
+                yield [('block', oc, inner)] + ([tail] if tail else [])
+                # the same two levels down, with a rule after the inner block inside the middle block
+                yield [('block', ('all',), [('block', oc, inner), ('acts', ('atom', 1), ['flags:T', 'pass'])])] + ([tail] if tail else [])
+
+
 def parse_dry(out, root):
     """-> {message file name: [dest label, ...]} in order"""
     res = {}
@@ -351,6 +368,41 @@ def bystanders(ck, rng, stats):
                 return
 
 
+def paths_stage(ck, rng, stats):
+    """a maildir block applies to exactly the maildirs it names, each of them: paths that are prefixes of one another as
+    strings (box / box2), a maildir nested in another (box/.Sub), trailing slashes, several blocks"""
+    layouts = [
+        (['box', 'box2', 'box/.Sub'], None),
+        (['box/.Sub', 'box', 'box2'], None),
+        (['box/', 'box/.Sub', 'other'], None),
+        (['box'], ['box/.Sub', 'box2']),
+        (['other', 'box2'], ['box', 'box/.Sub/']),
+    ]
+    for first, second in layouts:
+        sb = mdrun.Sandbox()
+        dst = sb.maildir('dst')
+        names = sorted(set(x.rstrip('/') for x in first + (second or [])))
+        want = 0
+        for n in names:
+            md = sb.maildir(n)
+            sb.add(md, 'new', ('To: a\nSubject: in %s\n\nPATHS-%s\n' % (n, n)).encode())
+            want += 1
+        blocks = ['maildir { %s } {\n\tmatch all move "%s"\n}\n' % (' '.join('"%s/%s"' % (sb.root, p_) for p_ in first), dst)]
+        if second:
+            blocks.append('maildir { %s } {\n\tmatch all move "%s"\n}\n' % (' '.join('"%s/%s"' % (sb.root, p_) for p_ in second), dst))
+        conf = sb.write_conf(''.join(blocks).encode())
+        rc, out, err = sb.run([], conf=conf)
+        stats['runs'] += 1; stats['paths_cases'] = stats.get('paths_cases', 0) + 1
+        moved = sb.snapshot(dst)
+        left = [n for n in names if sb.snapshot(os.path.join(sb.root, n))]
+        if rc != 0 or len(moved) != want or left:
+            stats['viol'] += 1
+            ck.violation('maildir blocks naming %r%s: %d of %d messages were moved, exit %d; untouched maildirs: %r'
+                         % (first, ' and %r' % second if second else '', len(moved), want, rc, left),
+                         {'stage': 'paths', 'first': first, 'second': second, 'exit': rc, 'stderr': err[-300:].decode(errors='replace')})
+        sb.cleanup()
+
+
 def formula_stage(ck, rng, stats):
     """negation, and / or and parentheses over matchers that take interpolated arguments (isdirectory, command): the formula
     decides as its boolean reading says, and a matcher below a negation sees the matches of its rule like any other"""
@@ -389,11 +441,19 @@ def run(ck):
     stats = dict(runs=0, evals=0, dis=0, viol=0, clean=0, T1=0, T2=0, T3=0, nontrivial=set())
     bystanders(ck, rng, stats)
     formula_stage(ck, rng, stats)
+    paths_stage(ck, rng, stats)
     samples = []
     small = list(small_trees())
     if ck.tier == 'quick':
         small = small[::9]
     for rules in small:
+        run_tree(ck, rules, stats, samples)
+        if len(ck.violations) > 6:
+            break
+    nested = list(nested_pass_break_trees())
+    if ck.tier == 'quick':
+        nested = nested[ck.rng.randrange(17)::17]
+    for rules in nested:
         run_tree(ck, rules, stats, samples)
         if len(ck.violations) > 6:
             break
@@ -406,14 +466,14 @@ def run(ck):
     ck.coverage.update({
         'evaluations': stats['evals'],
         'distinct_nontrivial': len(stats['nontrivial']),
-        'rule': 'rule trees: a bounded-exhaustive family (<= 3 rules per block, depth <= 1, 6 conditions x 6 action lists, sub-sampled in the quick tier) and random '
+        'rule': 'rule trees: a bounded-exhaustive family (<= 3 rules per block, depth <= 1, 6 conditions x 6 action lists, sub-sampled in the quick tier), a family with pass / break inside blocks nested one and two levels deep (all pairs of rules over 3 conditions x 6 action lists, 2 outer conditions, 3 continuations; every 17th in the quick tier) and random '
                 'trees (depth <= 3, <= 4 rules per block, and/or/!/parentheses/unparenthesised chains, pass/break as last action), each on all 8 truth assignments '
-                'of 3 matchers; plus 12 runs over a maildir holding non-message files (symbolic links to a matching message file / dangling / to a directory, a sub-directory, a FIFO) with file types reported and not reported by readdir; 8 formulas with negated / parenthesised isdirectory and command matchers taking back-references; non-trivial = the model or the documented semantics select at least one action; distinct = distinct (tree, assignment)',
+                'of 3 matchers; plus 12 runs over a maildir holding non-message files (symbolic links to a matching message file / dangling / to a directory, a sub-directory, a FIFO) with file types reported and not reported by readdir; 8 formulas with negated / parenthesised isdirectory and command matchers taking back-references; 5 layouts of blocks naming several maildirs (string prefixes, a maildir nested in another, trailing slashes); non-trivial = the model or the documented semantics select at least one action; distinct = distinct (tree, assignment)',
         'samples': samples,
         'traces_validated_against_impl': stats['evals'],
         'disagreements_checked': stats['dis'],
         'clean_evaluations': stats['clean'], 'T1': stats['T1'], 'T2': stats['T2'], 'T3': stats['T3'],
-        'bystander_runs': stats.get('bystander_runs', 0), 'formula_cases': stats.get('formula_cases', 0),
+        'bystander_runs': stats.get('bystander_runs', 0), 'formula_cases': stats.get('formula_cases', 0), 'paths_cases': stats.get('paths_cases', 0),
     })
     ck.assumptions += ['matchers are header patterns over X-A<i> headers (atoms that record a match); plain matchers and attachment conditions are covered by C11/C13 checks',
                        'messages sit in src/cur so that a message flagged into another subdirectory is not walked twice (finding F-20)']
